@@ -26,7 +26,7 @@ import (
 
 // Phase of a connection at the moment Shutdown is called.
 type c16Conn struct {
-	Phase     string `json:"phase"` // idle | partial | handler | stalled-response | connecting | closed | hook-fails
+	Phase     string `json:"phase"` // idle | partial | handler | stalled-response | connecting | accepted-held | closed | hook-fails | invalid-message
 	HandlerMs int    `json:"handler_ms,omitempty"`
 	Honours   bool   `json:"honours_context,omitempty"`
 	AfterMs   int    `json:"client_acts_after_ms,omitempty"` // 0: nothing; else the client acts this long after shutdown began
@@ -35,6 +35,9 @@ type c16Conn struct {
 	// Pipelined (handler phase): the client has already sent its next request when Shutdown is called, so the server's
 	// read loop holds a request nobody has taken yet
 	Pipelined bool `json:"next_request_already_sent,omitempty"`
+	// Invalid (phase invalid-message): what the client sent instead of a request before going silent (it reads whatever
+	// the server answers and keeps its side of the connection open): response-message | other-structure | oversize-header
+	Invalid string `json:"invalid_message,omitempty"`
 }
 type c16Case struct {
 	Conns []c16Conn `json:"connections"`
@@ -263,6 +266,18 @@ func c16Bubble(c c16Case) c08Result {
 			cl.p.closed = true
 			cl.p.mu.Unlock()
 			conn.Close()
+		case "invalid-message":
+			var b []byte
+			switch cc.Invalid {
+			case "response-message":
+				rm := kmip.ResponseMessage{Header: kmip.ResponseHeader{ProtocolVersion: kmip.V1_4, BatchCount: 1}, BatchItem: []kmip.ResponseBatchItem{{Operation: kmip.OperationActivate}}}
+				b = ttlvMarshal(&rm)
+			case "oversize-header":
+				b = []byte{0x42, 0x00, 0x78, 0x01, 0x00, 0x20, 0x00, 0x00, 1, 2, 3, 4, 5, 6, 7, 8}
+			default:
+				b = []byte{0x42, 0x00, 0x69, 0x01, 0x00, 0x00, 0x00, 0x10, 0x42, 0x00, 0x6A, 0x02, 0, 0, 0, 4, 0, 0, 0, 1, 0, 0, 0, 0}
+			}
+			_, _ = w.Write(b)
 		}
 		synctest.Wait()
 	}
@@ -497,7 +512,7 @@ func c16Bubble(c c16Case) c08Result {
 func TestC16Shutdown(t *testing.T) {
 	const name = "TestC16Shutdown"
 	rec := evid.New("C16", name, "0..6 connections, each in a drawn phase when Shutdown is called (idle, partial message sent, request in a handler of 0 / 1 s / 2.9 s / 3.1 s / 10 s honouring or ignoring its context (optionally with the next request already sent and waiting in the server's read loop), response blocked on a non-reading client, "+
-		"connecting during shutdown, accepted but not yet registered by the accept loop when Shutdown starts (the loop is held at a yield point and released once Shutdown waits or has returned), already closed, connect hook failing), on a plain or (one case in three) a TLS listener, optionally a second, overlapping Shutdown call 1 / 500 / 2000 / 3500 ms after the first, with 0..2 completed requests before and an optional client action (send more / close) at 0.5 / 2 / 3.5 s after shutdown began; synctest bubble (the 3 s grace period is exact and free); "+
+		"connecting during shutdown, accepted but not yet registered by the accept loop when Shutdown starts (the loop is held at a yield point and released once Shutdown waits or has returned), already closed, connect hook failing, silent but still connected after having sent something that is not a request message (a response message, another structure, a header announcing 2 MiB) and read the server's answer), on a plain or (one case in three) a TLS listener, optionally a second, overlapping Shutdown call 1 / 500 / 2000 / 3500 ms after the first, with 0..2 completed requests before and an optional client action (send more / close) at 0.5 / 2 / 3.5 s after shutdown began; synctest bubble (the 3 s grace period is exact and free); "+
 		"oracle at the instant Shutdown returns and after 5 more seconds: listener closed, Serve returned ErrShutdown, no handler running or started later, census 0, every in-flight request answered or cancelled no earlier than 3 s, exactly one terminate hook per successful connect hook after the connection's last handler, none otherwise; "+
 		"non-trivial = a connection mid-handler and another connection in a different phase; distinct by case").Attach(t)
 	if rp := evid.LoadReplay(name); rp != nil {
@@ -511,7 +526,7 @@ func TestC16Shutdown(t *testing.T) {
 		return
 	}
 	testTLSConfig() // built once, outside any bubble
-	phases := []string{"idle", "partial", "handler", "handler", "handler", "stalled-response", "connecting", "accepted-held", "closed", "hook-fails"}
+	phases := []string{"idle", "partial", "handler", "handler", "handler", "stalled-response", "connecting", "accepted-held", "closed", "hook-fails", "invalid-message"}
 	rapid.Check(t, func(rt *rapid.T) {
 		var c c16Case
 		n := rapid.IntRange(0, 6).Draw(rt, "connections")
@@ -525,6 +540,9 @@ func TestC16Shutdown(t *testing.T) {
 				handler = true
 			} else {
 				other = true
+			}
+			if cc.Phase == "invalid-message" {
+				cc.Invalid = rapid.SampledFrom([]string{"response-message", "other-structure", "oversize-header"}).Draw(rt, "invalid")
 			}
 			if rapid.IntRange(0, 2).Draw(rt, "acts") == 0 && cc.Phase != "closed" && cc.Phase != "connecting" && cc.Phase != "accepted-held" {
 				cc.AfterMs = rapid.SampledFrom([]int{500, 2000, 3500}).Draw(rt, "afterms")
